@@ -483,7 +483,6 @@ func (r *Recomposer) recomp(v any, rv reflect.Value) {
 		}
 		for k := range im {
 			sf := im[k]
-			f := rv.FieldByIndex(sf.Index)
 			var m any
 			var has bool
 			if m, has = vm[k]; !has {
@@ -496,7 +495,7 @@ func (r *Recomposer) recomp(v any, rv reflect.Value) {
 				}
 			}
 			if has && m != nil {
-				r.setValue(m, f, &sf)
+				r.setValue(m, fieldByIndex(rv, sf.Index), &sf)
 			}
 		}
 	case reflect.Interface:
@@ -514,6 +513,21 @@ func (r *Recomposer) recomp(v any, rv reflect.Value) {
 	default:
 		panic(fmt.Errorf("can not convert (%T)%v to a %s", v, v, rv.Type()))
 	}
+}
+
+// fieldByIndex is like reflect.Value.FieldByIndex but allocates an embedded
+// pointer that is nil instead of panicking.
+func fieldByIndex(rv reflect.Value, index []int) reflect.Value {
+	for i, x := range index {
+		if 0 < i && rv.Kind() == reflect.Ptr {
+			if rv.IsNil() {
+				rv.Set(reflect.New(rv.Type().Elem()))
+			}
+			rv = rv.Elem()
+		}
+		rv = rv.Field(x)
+	}
+	return rv
 }
 
 func (r *Recomposer) setValue(v any, rv reflect.Value, sf *reflect.StructField) {
